@@ -11,6 +11,7 @@ byte family transcripts), not by a theorem.
 import TypedPathVerif.Lemmas.Utf8
 import TypedPathVerif.Props.C13
 import TypedPathVerif.Props.C08
+import TypedPathVerif.Generated.Api
 
 namespace TP.C14
 
@@ -752,5 +753,9 @@ theorem mutations_valid (e : Enc) : ∀ (ms : List Mut) (b : Bytes), Valid b →
 example : Valid [97, 0xC3, 0xA9, 47, 0xE6, 0x97, 0xA5] := (validB_iff _).mp (by decide)
 example : ¬ Valid [97, 0xC3] := fun h => by have := (validB_iff _).mpr h; revert this; decide
 example : (setExtension .unix [97, 0xC3, 0xA9, 46, 0xC3, 0xA9, 47] [120]).1 = [97, 0xC3, 0xA9, 46, 120] := by decide
+
+/-- every public method the `utf8` group of source files declares now is called by the harness
+(regenerated table, gen/api.py): a method added without a transcript line breaks this -/
+theorem api_exercised_utf8 : Generated.apiUnexercised_utf8 = [] := rfl
 
 end TP.C14
